@@ -69,3 +69,10 @@ Definition assembly_statement : Prop :=
     (forall r, (r < glen vs)%nat -> assemble_gradient R 0 Rplus Rmult vs es r = spec_b vs es r) /\
     (forall r c, (r < glen vs)%nat -> (c < glen vs)%nat -> assemble_hessian R 0 1 Rplus Rmult vs es r c = spec_H vs es r c) /\
     assemble_chi2 R 0 Rplus Rmult vs es = spec_chi2 es.
+
+(* ---- vocabulary shared by C04 / C06 / C08 ---- *)
+Definition is_fixed_index (vs : list vertex) (r : nat) : bool :=
+  match locate vs r with Some (k, _) => fixed_at vs k | None => false end.
+(* the normal equations  H dx = -b  on the flat system of size N *)
+Definition solves (N : nat) (H : nat -> nat -> R) (b dx : nat -> R) : Prop :=
+  forall r, (r < N)%nat -> sumnR N (fun c => H r c * dx c) = - b r.
